@@ -314,7 +314,7 @@ def cache_extra(p, rng):
 
 class C05(Check):
     id = "C05"
-    modules = ["EG.Props.C05"]
+    modules = ["EG.Props.C05", "EG.Props.C05Trav"]
     assumptions = QueryBase.assumptions + [
         "a filter on a vertex ATTRIBUTE that later changes is outside 'graph mutations'",
         "fresh-interpreter loading is exercised by the correspondence (subprocess), not modelled: "
@@ -397,8 +397,47 @@ class C05(Check):
             if v is not None:
                 self._fresh_violations.append(v)
 
+    def memo_traffic_probe(self, rng, n):
+        """SOFT tie (never an alarm): the model's traversals and searches go through the memo exactly where the real
+        ones do (EG.TravState).  What a traversal wrote is visible through a later neighbors() call whose filter raises
+        at its first invocation: a memo hit answers without consulting the filter.  Real code and model are compared
+        on such scripts; the counts go into the evidence.  A disagreement only means that the code's memo TRAFFIC is
+        no longer the modelled one (e.g. traversals bypass the memo) — the property does not speak about that."""
+        import run as runmod
+        from adapter import Real
+        real = Real()
+        real.long_lived_filters = True      # one filter object per table (a new object per call is a new memo key)
+        agree = total = 0
+        first = None
+        for _ in range(n):
+            nv = rng.randint(2, 4)
+            sc = ["reset", "flag on"] + ["vertex V"] * nv
+            for _e in range(rng.randint(1, 5)):
+                sc.append("edge %s V%d V%d" % (rng.choice(["D", "U", "X"]), rng.randrange(nv), rng.randrange(nv)))
+            m = str(rng.getrandbits(64))
+            d, u = rng.choice([0, 1, 2]), rng.choice([0, 1])
+            kind = rng.choice(["bft", "dftr", "dfti"])
+            sc.append("%s - V%d %d %d %s - %s" % (kind, rng.randrange(nv), d, u, m, rng.choice(["list", "gen"])))
+            sc.append("%s - V%d 0 %d" % (rng.choice(["bfs", "dfsr", "dfsi"]), rng.randrange(nv), rng.choice([0, 1])))
+            for v in range(nv):
+                sc.append("nbrs V%d %d %d %s 1" % (v, d, u, m))
+            outs = [real.step(l) for l in sc]
+            _n, divs = runmod.compare([sc], [outs])
+            total += 1
+            if not divs:
+                agree += 1
+            elif first is None:
+                first = repr(divs[0])[:300]
+        return {"scripts": total, "agree": agree, "first_disagreement": first,
+                "note": "soft tie of the memo traffic of traversals (EG.TravState); never raises an alarm"}
+
     def extra_violations(self, stats):
         stats.extra["fresh_interpreter_roundtrips"] = getattr(self, "fresh_runs", 0)
+        try:
+            import random as _r
+            stats.extra["memo_traffic"] = self.memo_traffic_probe(_r.Random(12345), 40)
+        except Exception as exc:  # noqa: BLE001
+            stats.extra["memo_traffic"] = {"error": repr(exc)[:200]}
         v, self._fresh_violations = self._fresh_violations, []
         return v
 
